@@ -157,6 +157,7 @@ type Interp struct {
 	Inconclusive []string
 	FuncInstrs   map[string]int
 	FuncSym      map[string]bool
+	FuncHarness  map[string]bool
 	Stubs        map[string]int
 	Notes        []string
 	PathObs      []map[string]string
@@ -256,6 +257,7 @@ func (in *Interp) resetInstance() {
 	in.Inconclusive = nil
 	in.FuncInstrs = map[string]int{}
 	in.FuncSym = map[string]bool{}
+	in.FuncHarness = map[string]bool{}
 	in.Stubs = map[string]int{}
 	in.Notes = nil
 	in.PathObs = nil
@@ -930,6 +932,17 @@ func (in *Interp) interpret(fn *ssa.Function, args []Value, env []Value) (result
 	in.stack = append(in.stack, fr)
 	defer func() { in.stack = in.stack[:len(in.stack)-1] }()
 	fname := fn.String()
+	if _, seen := in.FuncHarness[fname]; !seen {
+		h := false
+		root := fn
+		for root.Parent() != nil {
+			root = root.Parent()
+		}
+		if root.Pos().IsValid() {
+			h = strings.Contains(in.Prog.Fset.Position(root.Pos()).Filename, "zz_verif_")
+		}
+		in.FuncHarness[fname] = h
+	}
 
 	block := fn.Blocks[0]
 	var prev *ssa.BasicBlock
